@@ -58,7 +58,7 @@ type c03Scenario struct {
 
 var (
 	c03Senders  = []string{"s@example.com", "S@EXAMPLE.COM", "s@EXAMPLE.com", "s@xn--e1aybc.example", "", "s@other.example", "u@тест.example", "not an address", "@", "s@sub.example.com"}
-	c03Rcpts    = []string{"a@example.org", "b@example.org", "c@example.net", "d@example.net", "e@other.test", "A@EXAMPLE.ORG", "ü@example.org", "nodomain", "f@example.net"}
+	c03Rcpts    = []string{"a@example.org", "a@EXAMPLE.org", "a@Example.Org", "b@example.org", "c@example.net", "d@example.net", "e@other.test", "A@EXAMPLE.ORG", "ü@example.org", "nodomain", "f@example.net"}
 	c03Payloads = []string{
 		"From: <s@example.com>\r\nSubject: hi\r\n\r\nbody line\r\n.leading dot\r\n",
 		"Subject: minimal\r\n\r\n",
